@@ -30,7 +30,15 @@ class Guard:
     def matches(self, rel, a_rx, b_rx=None):
         """does this guard fail when `A rel B` with A~a_rx, B~b_rx (operand order / mirrored relation tolerated)"""
         if b_rx is None:
-            return self.rel == rel and re.search(a_rx, self.lhs) is not None
+            if self.rel == rel and re.search(a_rx, self.lhs) is not None:
+                return True
+            # `x.is_none()` is `!x.is_some()`, `r.is_err()` is `!r.is_ok()`: a rule written for one spelling accepts the other
+            if self.rel in ('truth', 'not') and rel in ('truth', 'not') and self.rel != rel:
+                for a_, b_ in (('Option::is_some(', 'Option::is_none('), ('Option::is_none(', 'Option::is_some('),
+                               ('Result::is_ok(', 'Result::is_err('), ('Result::is_err(', 'Result::is_ok(')):
+                    if self.lhs.startswith(a_) and re.search(a_rx, b_ + self.lhs[len(a_):]) is not None:
+                        return True
+            return False
         if self.rel == rel and re.search(a_rx, self.lhs) and re.search(b_rx, self.rhs):
             return True
         if self.rel in SWAP and SWAP[self.rel] == rel and re.search(a_rx, self.rhs) and re.search(b_rx, self.lhs):
